@@ -441,6 +441,16 @@ def extract_source(fn):
         meta['dropped_prefix_chars'] = pos[0]
         body = body[pos[0]:]
         meta['sha256'] = hashlib.sha256(body.encode()).hexdigest()[:16]
+    if 'until' in fn['opts']:
+        # statement-prefix lifting: the body up to (not including) the anchor snippet; what follows is not verified and the
+        # template's //@tail supplies the result expression of the lifted prefix
+        pos = rsx.find_snippet(body, fn['opts']['until'])
+        if pos is None:
+            raise LostAnchor('%s: prefix anchor not found: %r' % (fn['id'], fn['opts']['until']))
+        meta['kind'] = 'prefix'
+        meta['dropped_suffix_chars'] = len(body) - pos[0]
+        body = body[:pos[0]]
+        meta['sha256'] = hashlib.sha256(body.encode()).hexdigest()[:16]
     if 'arm' in fn['opts']:
         scr, pat = fn['opts']['arm'].split('=>', 1)
         arm, mt = rsx.find_arm(body, scr.strip(), pat.strip())
@@ -529,7 +539,25 @@ def apply_rewrites(fn, body, meta, truncate=True):
                             end = j + b
                             break
                 if end:
-                    body = body[:m.start()] + rw['to'] + body[end:]
+                    to = rw['to']
+                    if '$' in to and not rw.get('block'):
+                        # $1, $2, ...: the call's arguments (split at top-level commas), so that the rewrite does not depend
+                        # on how the argument expressions are written
+                        args, d0, cur = [], 0, ''
+                        for k, t, a0, b0 in rsx.tokenize(body[j + 1:end - 1]):
+                            if k == 'punct' and t in '([{':
+                                d0 += 1
+                            elif k == 'punct' and t in ')]}':
+                                d0 -= 1
+                            if k == 'punct' and t == ',' and d0 == 0:
+                                args.append(cur.strip()); cur = ''
+                            else:
+                                cur += body[j + 1 + a0:j + 1 + b0] + ' '
+                        if cur.strip():
+                            args.append(cur.strip())
+                        for ai in range(len(args), 0, -1):
+                            to = to.replace('$%d' % ai, args[ai - 1])
+                    body = body[:m.start()] + to + body[end:]
                     n = 1
         else:
             body, n = rx.subn(lambda m: rw['to'], body)
